@@ -17,6 +17,13 @@ CONN_MODELLED = ("conn.go send/recv/read/finishCall/complete/closeQueue/Close an
                  "conn.mutex critical sections and gate crossings; the lock-free code between two gates is assumed to behave as the model's step says (sampled by the state correspondence, not proved); "
                  "streams are not part of K; hslam/scheduler is modelled as a FIFO single worker (closeQueue drains it in order)")
 
+POOL_RULE = ("scripted scenarios against the real *rpc.Transport whose Dial returns real Conns over an in-memory scripted server: sequential and held (long-running) calls of four forms to three addresses, "
+             "server kill/revive, idle phases (short / medium: KeepAlive passes / long: IdleConnTimeout passes), CloseIdleConnections, Close, limits in {-1,0,1,2,3}x{-1,0,1,2,5}; "
+             "after every action the pool snapshot (verif accessor), open sockets, dial count and call outcomes are compared with the Lean pool automaton; distinct = (limits, action sequence)")
+POOL_MODELLED = ("transport.go getConn/newPersistConn/run/CloseIdleConnections/Close/checkPersistConnErr and conns/connQueue are modelled as the automaton P (Model/Pool.lean), one event per connsMu critical section; "
+                 "limit normalisation and Cursor() are translated from the source on every run (Generated/PoolFacts.lean); the Conn inside a pooled connection is abstracted to (dead, outstanding calls)")
+TB_POOL = TB_COMMON + ["the verif-tagged accessors in /repo/verif_hooks.go (housekeeping period, pool snapshot)", "real timers and sleeps in the correspondence phases"]
+
 PROPS = {
     "C07": {
         "components": [{"name": "wire", "driver": "wire", "streams": ["c07"]}],
@@ -33,6 +40,10 @@ PROPS = {
         "rule": CONN_RULE, "trusted_base": TB_COMMON, "modelled": CONN_MODELLED,
         "assumptions": ["Done channels have room for the calls they carry", "fewer than 2^64 calls per connection"],
     },
+    "C13": {"components": [{"name": "pool", "driver": "pool", "streams": ["p"]}], "rule": POOL_RULE, "trusted_base": TB_POOL, "modelled": POOL_MODELLED, "assumptions": ["logical clock; real timers only in the correspondence, with margins of >= 20 housekeeping periods around every threshold"]},
+    "C14": {"components": [{"name": "pool", "driver": "pool", "streams": ["p"]}], "rule": POOL_RULE, "trusted_base": TB_POOL, "modelled": POOL_MODELLED, "assumptions": ["'promptly' (ErrDial without delay) is measured by the harness deadline, not proved"]},
+    "C15": {"components": [{"name": "pool", "driver": "pool", "streams": ["p"]}], "rule": POOL_RULE, "trusted_base": TB_POOL, "modelled": POOL_MODELLED, "assumptions": ["reclamation after KeepAlive/IdleConnTimeout is observed in the correspondence phases (idle medium / idle long), not proved as a liveness theorem",
+        "the window between getConn returning a connection and the call registering on it is not gate-bounded (DESIGN.md D12): the spares-busy theorem is about connections in active lists"]},
     "C08": {
         "components": [{"name": "wire", "driver": "wire", "streams": ["c08"]}],
         "rule": "malformed stream: every truncation (≤48 cut points per frame) and single-byte substitutions {00,01,08,7f,80,ff,random} in the first 12 and 4 random positions of valid frames, "
@@ -50,6 +61,18 @@ NOT_APPLICABLE = {}
 KERNEL_NOTE = "Trusted: Lean kernel (propext, Classical.choice, Quot.sound only), the extractor, the harness (gates, quiescence detection, monitors). "
 
 MANIFEST_TEXT = {
+    "C13": {
+        "text": "Lean 4 theorems over the pool automaton P for every sequence of pool events (any callers, addresses, ticks at any clock values, failures, CloseIdleConnections, Close): open sockets per address never exceed MaxConnsPerHost, idle queues never exceed MaxIdleConnsPerHost, limits are normalised as documented. Normalisation and cursor arithmetic are translated from transport.go on every run; P is compared with the real Transport (pool snapshot, open sockets, dials, outcomes) after every action of scripted scenarios, and a counting socket wrapper checks the bound at every dial.",
+        "note": KERNEL_NOTE + "Also trusted: the verif-tagged accessors and real timers in the correspondence phases (margins >= 20 ticks).",
+        "technique": "Lean 4 proof (pool invariant by induction over all event sequences) + translated limit/cursor arithmetic + state correspondence + counting monitor"},
+    "C14": {
+        "text": "Lean 4 theorems over P: on every reachable pool state getConn hands out only a connection dialed to and filed under the requested address that is not known dead (all three paths); a connection marked dead stays dead; while the server is down nothing is dialed and an empty pool yields ErrDial. Correspondence and monitors (server identity echoed in replies, failures after a restart bounded by the pooled connections) on the real Transport.",
+        "note": KERNEL_NOTE + "'Promptly' is a harness deadline. Recovery bound is a corollary argued from the two theorems plus the monitor, not a separate theorem.",
+        "technique": "Lean 4 proof + state correspondence + restart/identity monitors"},
+    "C15": {
+        "text": "Lean 4 theorems over P: a housekeeping pass and CloseIdleConnections neither close nor retire a connection of an active list with an outstanding call (the guard's presence is read from the source); Close closes every pooled connection, empties the pool, stops housekeeping and is idempotent. Reclamation after KeepAlive/IdleConnTimeout and long calls spanning many ticks are exercised in the correspondence phases.",
+        "note": KERNEL_NOTE + "Partial: the unrestricted statement is false when a tick falls inside the getConn-to-register window (DESIGN.md D12, not reproduced on the real code); reclamation is observed, not proved.",
+        "technique": "Lean 4 proof (safety part) + state correspondence over timed phases + busy-connection monitor"},
     "C07": {
         "text": "Lean 4 theorems over the wire model: for every header value, scratch buffer and read-buffer tail the pb/default and code encoders emit exactly the documented bytes and the decoders return the original fields; upgrade flags round-trip and are injective. The model's constants are regenerated from /repo on every run and the model is compared byte-for-byte with the real encoders/decoders on generated values.",
         "note": KERNEL_NOTE + "The json header is not modelled: its round-trip, keys and UTF-8 handling are monitored on the implementation only. Sequence numbers < 2^64, lengths < 2^63.",
